@@ -8,3 +8,6 @@ using namespace GeographicLib;
 VF_API double vf_geninverse_exact(double a, double f, double lat1, double lon1, double lat2, double lon2, double* out) {
   GeodesicExact g(a, f); return g.GenInverse(lat1, lon1, lat2, lon2, GeodesicExact::DISTANCE | GeodesicExact::AZIMUTH | GeodesicExact::REDUCEDLENGTH | GeodesicExact::GEODESICSCALE, out[0], out[1], out[2], out[3], out[4], out[5], out[6], out[7], out[8]);
 }
+VF_API double vf_geninverse_exact_area(double a, double f, double lat1, double lon1, double lat2, double lon2, double* out) {
+  GeodesicExact g(a, f); return g.GenInverse(lat1, lon1, lat2, lon2, GeodesicExact::DISTANCE | GeodesicExact::AZIMUTH | GeodesicExact::REDUCEDLENGTH | GeodesicExact::GEODESICSCALE | GeodesicExact::AREA, out[0], out[1], out[2], out[3], out[4], out[5], out[6], out[7], out[8]);
+}
